@@ -22,27 +22,30 @@ def showRes : Res → String
   | .stuck => "none"
   | .next _ => "running"
 
-partial def loop (h : IO.FS.Stream) (fns : List FnDef) : IO Unit := do
+partial def loop (h : IO.FS.Stream) (fns : List FnDef) (big : Bool := false) : IO Unit := do
   let l ← h.getLine
   if l.isEmpty then return ()
   let l := l.trimAscii.toString
-  if l.startsWith "fn " then
+  -- `big`: the next program is a long loop (reference depth 100000, 5*10^7 VM steps); otherwise the small fuel
+  -- used for generated programs, which may not terminate
+  if l == "big" then loop h fns true
+  else if l.startsWith "fn " then
     match Reader.read (l.drop 3).toString with
     | some [.int ar, ir] =>
         match parseIR ir with
-        | some b => loop h (fns ++ [{ arity := ar.toNat, body := b }])
-        | none => IO.println "bad"; loop h fns
-    | _ => IO.println "bad"; loop h fns
+        | some b => loop h (fns ++ [{ arity := ar.toNat, body := b }]) big
+        | none => IO.println "bad"; loop h fns big
+    | _ => IO.println "bad"; loop h fns big
   else if l.startsWith "main " then
     match (Reader.read (l.drop 5).toString).bind (fun x => x.head?.bind parseIR) with
     | some e =>
-        let r := (evalIR fns 100000 e []).map (·.1)
-        let (v, d) := runDepth 1000000 fns 50000000 { cur := { code := compileTail e, ip := 0, stack := [] }, frames := [] } 0
+        let r := (evalIR fns (if big then 100000 else 200) e []).map (·.1)
+        let (v, d) := runDepth 1000000 fns (if big then 50000000 else 200000) { cur := { code := compileTail e, ip := 0, stack := [] }, frames := [] } 0
         let tailonly := TailOnly e && fns.all (fun fd => TailOnly fd.body)
         IO.println s!"ref={showFVal r} vmT={showRes v} maxdepth={d} tailonly={tailonly}"
         loop h []
     | none => IO.println "bad"; loop h []
-  else loop h fns
+  else loop h fns big
 
 end SteelVerif.C09
 
